@@ -43,9 +43,9 @@ Proof.
 Qed.
 
 Lemma print_total_lemma D x e :
-  g_sympy e = true -> g_printable e = true -> exists l, print_stmt D x e = Some l.
+  g_sympy e = true -> exists l, print_stmt D x e = Some l.
 Proof.
-  intros Hs Hp. unfold print_stmt. rewrite Hp. cbn [negb]. unfold g_sympy in Hs.
+  intros Hs. unfold print_stmt. unfold g_sympy in Hs.
   destruct (is_pw e) eqn:Hpw; [|eexists; reflexivity].
   apply andb_prop in Hs. destruct Hs as [Hs H3]. apply andb_prop in Hs. destruct Hs as [_ Hnt].
   unfold print_piecewise, stripped_ps.
